@@ -2,7 +2,7 @@
 import slots_check
 import tower_common
 
-TARGETS = ["theories/Properties/C07.v"] + slots_check.SLOTS_TARGETS
+TARGETS = ["theories/Properties/C07.v", "theories/Properties/C07_ledger.v"] + slots_check.SLOTS_TARGETS
 MON = {"C07"}
 KNOWN = {}
 
